@@ -204,8 +204,8 @@ def evaluate__string(self: XPathFunction, context: ta.ContextType = None) -> str
     if not self:
         if context is None:
             raise self.missing_context()
-        return self.compat_string_value(context.item)
-    return self.compat_string_value(self.get_argument(context))
+        return self.atomic_string_value(context.item)
+    return self.atomic_string_value(self.get_argument(context))
 
 
 @method(function('contains', nargs=2,
@@ -226,7 +226,7 @@ def evaluate__concat(self: XPathFunction, context: ta.ContextType = None) -> str
         context = self.context
 
     return ''.join(
-        self.compat_string_value(self.get_argument(context, index=k)) for k in range(len(self))
+        self.atomic_string_value(self.get_argument(context, index=k)) for k in range(len(self))
     )
 
 
@@ -241,7 +241,7 @@ def evaluate__string_length(self: XPathFunction, context: ta.ContextType = None)
     elif context is None:
         raise self.missing_context()
     else:
-        return len(self.compat_string_value(context.item))
+        return len(self.atomic_string_value(context.item))
 
 
 @method(function('normalize-space', nargs=(0, 1),
@@ -251,7 +251,7 @@ def evaluate__normalize_space(self: XPathFunction, context: ta.ContextType = Non
         context = self.context
 
     if self.parser.version == '1.0' or not self:
-        arg = self.compat_string_value(self.get_argument(context, default_to_context=True, default=''))
+        arg = self.atomic_string_value(self.get_argument(context, default_to_context=True, default=''))
     else:
         arg = self.get_argument(context, default_to_context=True, default='', cls=str)
     # Only the XML whitespace characters (#x20, #x9, #xD, #xA) are separators
